@@ -44,7 +44,7 @@ Inductive expr :=
 | EFunc (ps : list str) (ds : list expr) (b : expr).
 
 (* statement keywords *)
-Inductive kw := KLet | KModule | KImport | KInto.
+Inductive kw := KLet | KModule | KImport | KInto | KType.
 
 (* ------------------------------------------------------------------ tokens *)
 (* TS s un : operator symbol s (an index into the symbol table); `un` records that the printer emitted it in
@@ -60,7 +60,9 @@ Inductive tok :=
 | TAlias (n : str) | TNamed (n : str)
 | TFunc | TThin
 (* statement level: a line break followed by `ind` units of indentation; a statement keyword; the `@` of an annotation *)
-| TNL (ind : nat) | TKw (k : kw) | TAnn.
+| TNL (ind : nat) | TKw (k : kw) | TAnn
+(* type expressions: `*` (a tuple field of any type), `<` and `>` around a type annotation *)
+| TStar | TLt | TGt.
 
 Definition gkind_eqb (a b : gkind) : bool :=
   match a, b with GPipe, GPipe | GTup, GTup | GArr, GArr | GCase, GCase => true | _, _ => false end.
